@@ -630,12 +630,21 @@ func (env *SpecEnv) ghostField(base TV, name string) TV {
 		// an unbounded ghost byte sequence
 		h := env.st.heapGet(tn+".$"+name, SArr(SInt, SArr(SInt, SInt)))
 		return TV{ArrayV{Comps: []*Term{Select(h, key)}, N: 1 << 40}, ghostBytesType}
+	case "imap":
+		// a ghost map from integers to integers (object references)
+		h := env.st.heapGet(tn+".$"+name, SArr(SInt, SArr(SInt, SInt)))
+		return TV{ArrayV{Comps: []*Term{Select(h, key)}, N: 1 << 40}, ghostIMapType}
+	case "bmap":
+		h := env.st.heapGet(tn+".$"+name, SArr(SInt, SArr(SInt, SBool)))
+		return TV{ArrayV{Comps: []*Term{Select(h, key)}, N: 1 << 40}, ghostBMapType}
 	}
 	h := env.st.heapGet(tn+".$"+name, SArr(SInt, srt))
 	return TV{Scalar{Select(h, key)}, gt}
 }
 
 var ghostBytesType = types.NewArray(types.Typ[types.Uint8], 1<<40)
+var ghostIMapType = types.NewArray(types.Typ[types.Int], 1<<40)
+var ghostBMapType = types.NewArray(types.Typ[types.Bool], 1<<40)
 
 func (env *SpecEnv) ghostType(name string) types.Type {
 	kind := env.ex.Specs.GhostVars[name]
@@ -1025,6 +1034,13 @@ func (env *SpecEnv) evalCall(c *ast.CallExpr) TV {
 		case "tagof":
 			v := env.eval(c.Args[0])
 			return TV{Scalar{v.V.(IfaceV).Tag}, intT}
+		case "valof":
+			v := env.eval(c.Args[0])
+			iv, ok := v.V.(IfaceV)
+			if !ok {
+				tool("spec: valof of a non-interface value")
+			}
+			return TV{Scalar{iv.Val}, intT}
 		case "ite":
 			cnd := env.evalBoolT(c.Args[0])
 			a, b := env.eval(c.Args[1]), env.eval(c.Args[2])
